@@ -114,6 +114,24 @@ SEEDS.update({
           'wait-before (or pause-before) together with timeout on one task and an action that outlives the timeout'),
  'C09c': ('resolve_workflow_definition: split(parent_spec_name)[0] instead of rstrip',
           'a workbook whose name contains the calling workflow\'s own short name (main_flows / main) calling a sibling by its short name'),
+ 'C11c': ('_refresh_task_state no longer returns for a completed workflow (guard lost when the spec construction moved under the lock)',
+          'a join whose inbound tasks have all completed and whose refresh job is pending when the stop commits; the join runs a sub-workflow (cancel)'),
+ 'C12c': ('Workflow.rerun cleans the task runtime context only when reset is true',
+          'a with-items task with a retry policy that exhausted its retries, rerun with reset=False, first new attempt fails again'),
+ 'C13c': ('has_scheduled_jobs: the first in-memory job with the key decides the processing filter',
+          'two live jobs with one key in different capture states'),
+ 'C14c': ('parse_yaml catches MarkedYAMLError instead of YAMLError',
+          'a definition text containing a character the YAML reader refuses (ESC, NUL, U+FFFE): ReaderError escapes'),
+ 'C15c': ('rest_utils.get_all: a project_id filter makes the query insecure',
+          'a non-admin lists workflows / cron triggers with ?project_id=<other project> (uuid-like ids)'),
+ 'C16c': ('rest_utils.get_all: a project_id filter makes the query insecure (same change as C15c, found independently)',
+          'GET /v2/workflows?project_id=<B> by a non-admin without the all_projects rule'),
+ 'C17c': ('process_cron_triggers_v2 builds the context from the workflow definition\'s project',
+          'a trigger of project B on a public workflow owned by project A'),
+ 'C18c': ('get_expired_executions filters on created_at instead of updated_at',
+          'a finished root execution that started before the cut-off and finished after it'),
+ 'C19c': ('validate_url skips networks of the other IP version before unwrapping IPv4-mapped addresses',
+          'http://[::ffff:169.254.169.254]/ or a name resolving to such an address'),
  'C10c': ('_continue_workflow drops every engine command (not only pause) on resume',
           'a task whose clause yields fail / succeed completes while the workflow is paused'),
 })
